@@ -140,6 +140,33 @@ func TestC10Big(t *testing.T) {
 			t.Fatalf("C10 violated: %s", o.Error())
 		}
 	}
+	// two more files: one page of incompressible strings whose *compressed* body is well beyond 32 KiB / 64 KiB (gzip, snappy),
+	// so that a reader which streams or sub-buffers large compressed pages takes that path
+	for ci, codec := range []int{fx.Gzip, fx.Snappy} {
+		if nsh != 1 && idx != ci%nsh {
+			continue
+		}
+		w := &Workload{Fixture: "bigtail", PageSize: 10000, Codec: codec, Batches: []int{2500}}
+		x := uint64(0x9e3779b97f4a7c15) + uint64(ci)
+		for i := 0; i < 2500; i++ {
+			b := make([]byte, 40)
+			for j := range b {
+				x ^= x << 13
+				x ^= x >> 7
+				x ^= x << 17
+				b[j] = byte(x >> 32)
+			}
+			w.Records = append(w.Records, &vt.Val{F: []*vt.Val{{U: x}, {S: vt.Bytes(b)}}})
+		}
+		h := "bigz/" + fx.CodecNames[codec]
+		o := checkC10(w, func(k int, mode string, kind byte) {
+			record("C10", fmt.Sprintf("%s/%d/%s", h, k, mode), true, []string{"mode=" + mode, "fixture=big", "codec=" + fx.CodecNames[codec], "compressed-page>64KiB"}, nil)
+		})
+		if o != nil && !isKnown("C10", o.Key) {
+			saveFail("C10", w, o)
+			t.Fatalf("C10 violated: %s", o.Error())
+		}
+	}
 	for codec := 0; codec < 3; codec++ {
 		for _, batches := range [][]int{{2100}, {2090, 10}} {
 			k++
